@@ -148,6 +148,8 @@ type OracleState struct {
 	havePrev  bool
 	prevBytes []byte
 	rawPart   bool // the history wrote partition metadata as raw bytes (finding D7's trigger)
+	primOff   bool // C02: the loaded image did not satisfy the primary-partition clause to begin with
+	storeFailed bool // C02: a store failure happened earlier in this history (the reference model does not cover what it leaves)
 	afterFault bool // a store failure happened earlier in the history: the header's data-size accounting may be stale for good (as after a crash)
 	foreign   bool // the image was loaded (written by someone else): a free slot may carry a number in use
 	expect    map[uint32]expectObj
@@ -286,6 +288,23 @@ func oracleC02(e *Env, st *OracleState, i int, op *Op, res string) *Violation {
 	if cur.Free+int64(len(cur.Objs)) != cur.Total {
 		return &Violation{Prop: "C02", Key: "C02:accounting", What: fmt.Sprintf("free %d + used %d != total %d", cur.Free, len(cur.Objs), cur.Total), Op: i}
 	}
+	if op.Kind == "create" {
+		st.primOff = false
+	}
+	want0 := "unknown"
+	if prim == 1 {
+		want0 = primArch
+	}
+	if op.Kind == "load" && (prim > 1 || cur.Arch != want0) {
+		// someone else's file that does not satisfy the clause to begin with (two primary partitions,
+		// or a header that does not record the primary architecture): the clause is an invariant the
+		// library maintains from a state that has it (hypothesis H of C02_primary_history)
+		st.primOff = true
+	}
+	hdrArch := cur.Arch
+	if st.primOff {
+		prim, primArch, hdrArch = 0, "", "unknown"
+	}
 	key := "C02:primary-arch"
 	if st.rawPart {
 		key = "C02:partition-metadata-raw"
@@ -297,8 +316,8 @@ func oracleC02(e *Env, st *OracleState, i int, op *Op, res string) *Violation {
 	if prim == 1 {
 		want = primArch
 	}
-	if cur.Arch != want {
-		return &Violation{Prop: "C02", Key: key, What: fmt.Sprintf("header arch %q, primary partition arch %q", cur.Arch, want), Op: i}
+	if hdrArch != want {
+		return &Violation{Prop: "C02", Key: key, What: fmt.Sprintf("header arch %q, primary partition arch %q", hdrArch, want), Op: i}
 	}
 	// a live object keeps its attributes and content until deleted / explicitly modified
 	if st.havePrev && isMutator(op.Kind) && strings.HasPrefix(res, "res ok") {
